@@ -203,6 +203,10 @@ def run(tier, seed):
                 continue
             for o in res["rounds"]:
                 outs[o["rid"]] = o
+        # the recording wrappers must have been reached at all: a tree on which they no longer fire is not judged
+        seen_events = {e["ev"] for o in outs.values() for e in o.get("events", [])}
+        if outs and not {"enter", "alloc", "lookup"} <= seen_events:
+            raise MachineryError(f"C14: the recording wrappers are not attached to this tree (events seen: {sorted(seen_events)})")
         traces = 0
         jobs = []
         for rd in rounds:
